@@ -16,6 +16,9 @@ CLAIMED = {
     "C15": dict(
         text="Theorems: appending members to an interface leaves the numbering (op-codes, error values, resolved parameters, positions) of all its pre-existing and inherited members unchanged; added declarations do not change what existing names resolve to; a method's plan depends on its parameter list only. Tie: revision pairs through the real passes (L0, Coq-evaluated comparison of ids, error values and plans) and byte-equality of the generated per-method fragments in C, C++ and Rust (L1).",
         ref="7 (C15)", technique="Coq proof + differential execution on generated revision pairs"),
+    "C06": dict(
+        text="Theorems: for every struct the StructVerifier model accepts (any nesting depth, any array counts, object fields), the natural-alignment layout of the emitted type (SysV x86-64 / repr(C), as modelled in Layout.v) has every field at the sum of the sizes before it and sizeof equal to the assumed size, along the whole dependency order; the primitive size/alignment tables regenerated from ast.rs are the ABI's. Tie: L0 sizes (implementation vs model vs verifier), sizeof/alignof/offsetof probes of the emitted types with gcc, clang, g++, clang++ and rustc against the Spec, and validation of Layout.v against gcc/clang on arbitrary (also padded) structs every run.",
+        ref="7 (C06)", technique="Coq proof (no-padding theorem over the dependency order) + compiler probes + differential correspondence"),
 }
 NOTE = ("Trusted: Coq 8.16.1 kernel (vm_compute used; no native_compute), no axioms; lib/translate.py; the harness crate; "
         "python driver and scrapers. Modelled rather than verified: all of /repo (theorems are about coq/theories; the tie is "
